@@ -42,7 +42,10 @@ class VLoop(asyncio.SelectorEventLoop):
         self._vnow_ns += int(ns)
 
     def call_at(self, when, callback, *args, context=None):
-        q = round(when * 1e9) / 1e9
+        # a timer never fires before its time: times that are no whole number of ns are rounded UP (float noise below
+        # a thousandth of a ns aside) - rounding to the nearest ns would start a sleep-paced tick up to 0.5 ns early
+        import math
+        q = math.ceil(when * 1e9 - 1e-3) / 1e9
         return super().call_at(q, callback, *args, context=context)
 
     def _run_once(self):
